@@ -3,7 +3,7 @@ from __future__ import annotations
 
 import ast
 
-from ..effects import python_bool_on_arrays, Hit, functions_of, module_level_state, scan_function
+from ..effects import cell_var_from_loop, mutable_default_mutation, python_bool_on_arrays, Hit, functions_of, module_level_state, scan_function
 from ..kinds import BOOL, FLOAT, INT, SCALAR, UNKNOWN, Kinds, ann_kind_shape
 from ..model import AnalysisError
 from ..norm import Normalizer, freeze, pconst, pneg, show_term
@@ -218,6 +218,9 @@ def check_purity(s, rule="C02.3"):
         n_fn += 1
         hits = [h for h in scan_function(P, m, qual, fn) if h.kind in ("forbidden-callee", "attribute-assignment", "global-state", "dict-access", "setattr", "constant-key", "item-assignment", "memoization", "host-callback")
                 and not (h.kind == "host-callback" and m.name.startswith("lerax.compatibility"))]
+        md = mutable_default_mutation(fn) + cell_var_from_loop(fn)
+        s.ob(rule, qual.replace("lerax.", ""), not md, "no state shared between calls through a mutable default argument, no function value reading a loop variable late", P.loc(m, fn),
+             key="shared-python-state", detail="; ".join(md[:3]), necessary_for="signals depend only on explicit arguments, not on Python-side state")
         pb = python_bool_on_arrays(P, m, fn)
         s.ob(rule, qual.replace("lerax.", ""), not pb, "no Python and/or/not over an array value (it yields a Python bool, not a Bool array, and fails under jit)", P.loc(m, fn),
              key="python-bool-on-array", detail="; ".join(pb[:3]), necessary_for="terminal and truncated are boolean scalars (arrays) for every constructor configuration; eager, jit and vmap agree")
